@@ -7,7 +7,13 @@
                     is finite)
 
    Each returns [s |-> successor, out |-> emission]; NoOut = nothing emitted by this read.
-   Req(s) is the OBSERVABLE of every read: "block" (timeout -1) or "finite".
+   Req(s) is the OBSERVABLE of every read: "block" (a negative timeout = wait for ever) or "finite"
+   (a POSITIVE timeout; a zero timeout is recorded as "zero" by the executor and is neither).
+   Req depends on the decoder state only -- NOT on how long the current sequence has been arriving:
+   a byte may arrive at once ("now") or just before the requested timeout expires ("late"), and
+   however many late bytes a sequence has had, the next read inside it still has a positive finite
+   timeout (TimeIndependence; MCTermTiming carries the elapsed time explicitly and checks
+   BoundedWait: an event is returned within  bytes consumed x timeout + one timeout).
 
    State s = [ph, st, pend, acc, len, wf, n]
      ph    Idle | Esc | EscEsc | Csi0 (just after ESC [) | Csi (inside the arguments) |
@@ -37,6 +43,7 @@
      NeverBlocksMidSequence  every state that is not (Idle, nothing pending) requests a FINITE
                              timeout, and the Timeout action emits and returns to Idle
      BlockOnlyAtBoundary     a blocking read is requested only when no byte of an event is consumed
+     TimeIndependence, BoundedWait (MCTermTiming)  see Req above
      Total                   OnByte is defined and type-correct for all 256 bytes in every state
      PlainTextLossless       (MCTermText) feeding UTF-8(text) yields exactly Key(c) for every
                              character c of text, in order, each consuming exactly its bytes
@@ -154,6 +161,14 @@ Total(s) == \A b \in 0..255 :
               /\ t.out.kinds \subseteq Kinds
               /\ (t.out.kinds # {} <=> t.s = Init0)
               /\ (t.out.kinds # {} => t.out.n = s.n + 1)
+
+(* ---- time.  One unit = 1/10 of the sequence timeout.  A byte that arrives "now" costs 0, a
+   "late" byte just under one timeout (9), a Timeout exactly one timeout (10).  el = time elapsed
+   since the first byte of the event being decoded. *)
+TO == 10
+Cost(dl) == IF dl = 1 THEN TO - 1 ELSE 0
+BoundedWait(s, el) == el <= s.n * TO + TO
+TimeIndependence(s, el) == ~(s.ph = "Idle" /\ s.pend = 0) => Req(s) = "finite"   \* whatever el is
 
 (* ---- UTF-8 encoding, the reference for PlainTextLossless *)
 Enc(c) == IF c < 128 THEN <<c>>
